@@ -1,0 +1,28 @@
+// Copyright 2020-2023 IOTA Stiftung
+// SPDX-License-Identifier: Apache-2.0
+
+//! Verification-only scheduling hook, compiled only with the `verif-hooks` feature.
+//!
+//! A model-checking harness installs a function that is called immediately before every
+//! lock acquisition of the in-memory stores, so that a controlled scheduler can switch
+//! threads there. Nothing is installed by default and the call is then a no-op.
+
+use std::sync::OnceLock;
+
+/// The hook is about to acquire the shared lock.
+pub const BEFORE_READ: u8 = 0;
+/// The hook is about to acquire the exclusive lock.
+pub const BEFORE_WRITE: u8 = 1;
+
+static HOOK: OnceLock<fn(u8)> = OnceLock::new();
+
+/// Installs the scheduling hook. Returns `false` if one was already installed.
+pub fn set_sched_hook(hook: fn(u8)) -> bool {
+  HOOK.set(hook).is_ok()
+}
+
+pub(crate) fn sched_point(kind: u8) {
+  if let Some(hook) = HOOK.get() {
+    hook(kind)
+  }
+}
